@@ -293,7 +293,10 @@ def rerun(path, root):
         # regenerate the same seeded program and run it again through the whole pipeline
         import diffrun
         a = cx['args']
-        v = diffrun.check_program(exe, a['property'], a['seed'], a['functions'], os.path.join(root, '.build', 'diffrun_replay'))
+        if 'error_case' in a:
+            v = diffrun.check_error_program(exe, a['property'], a['error_case'], os.path.join(root, '.build', 'diffrun_replay'))
+        else:
+            v = diffrun.check_program(exe, a['property'], a['seed'], a['functions'], os.path.join(root, '.build', 'diffrun_replay'))
         print(json.dumps({k: v[k] for k in v if k != 'source'}, indent=1))
         if not v['ok']:
             print(v.get('source', '')[-3000:])
